@@ -18,7 +18,7 @@ PROPERTY = "C16"
 NUM = 16
 RULE = ("cases = mean curve with one dominant and several secondary peaks on a log grid (adjacent ratio < 1.5; a coarse-grid "
         "class with ratio up to 5), peak frequency placed in each of the five threshold bands and exactly on 0.2/0.5/1/2 Hz, "
-        "std curve scaled to straddle 2/3 and theta, window length/count straddling 10/lw and nc=200, fn_std straddling "
+        "std curve scaled to straddle 2/3 and theta, window length/count straddling 10/lw and nc=200 (down to a fraction of one cycle), fn_std straddling "
         "epsilon*f0, search ranges (none / half-open / bounded / on-sample), verbose 0/1/2; non-trivial = neither all-pass "
         "nor all-fail; distinct = (band, grid, range class, verdict vector) signatures")
 ASSUMPTIONS = [
@@ -54,7 +54,7 @@ def gen_case(rng, coarse=False):
     f = f0 * ratio ** np.arange(-nlo, nhi + 1)
     p = nlo
     lf = np.log(f / f0)
-    a0 = float(rng.choice([1.5, 1.9, 2.0, 2.1, 3.0, 6.0]))
+    a0 = float(rng.choice([1.5, 1.9, 1.9995, 2.0, 2.0005, 2.1, 3.0, 6.0]))
     width = float(rng.uniform(0.15, 1.2))
     base = float(rng.uniform(0.3, 1.2))
     mean = base + (a0 - base) * np.exp(-0.5 * (lf / width) ** 2)
@@ -68,13 +68,17 @@ def gen_case(rng, coarse=False):
         w = int(rng.integers(2, 4))                       # a flat-topped main peak: 2-3 samples of exactly equal height
         mean[p:p + w] = mean[p]
     theta = [3.0, 2.5, 2.0, 1.78, 1.58][min(4, sum(f0 >= e for e in (0.2, 0.5, 1.0, 2.0)))]
-    target = float(rng.choice([theta, 2.0, 3.0])) * float(rng.choice([0.8, 0.97, 1.0, 1.03, 1.3]))
+    target = float(rng.choice([theta, 2.0, 3.0])) * float(rng.choice([0.8, 0.97, 0.9995, 1.0, 1.0005, 1.03, 1.3]))
     std = np.log(target) * (1 + 0.15 * np.sin(3 * lf + rng.uniform(0, 6))) * np.ones_like(f)
     std = np.abs(std) + 1e-3
-    lw = float(10.0 / f0 * rng.choice([0.5, 0.98, 1.0, 1.02, 2.0, 10.0]))
+    lw = float(10.0 / f0 * rng.choice([0.5, 0.98, 0.9995, 1.0, 1.0005, 1.02, 2.0, 10.0]))
     nw = int(max(1, round(200.0 / (lw * f0) * rng.choice([0.5, 0.99, 1.01, 2.0]))))
+    if rng.random() < 0.35:
+        # criterion ii right at its threshold: nc = lw*nw*f0 a fraction of a cycle on either side of 200
+        nw = int(rng.integers(2, 300))
+        lw = float(200.0 * rng.choice([0.9985, 0.9996, 1.0, 1.0004, 1.001, 1.002, 1.0024, 1.003, 1.0051, 1.01]) / (nw * f0))
     eps = [0.25, 0.2, 0.15, 0.1, 0.05][min(4, sum(f0 >= e for e in (0.2, 0.5, 1.0, 2.0)))]
-    fn_std = float(eps * f0 * rng.choice([0.5, 0.98, 1.02, 2.0]))
+    fn_std = float(eps * f0 * rng.choice([0.5, 0.98, 0.9995, 1.0005, 1.02, 2.0]))
     rk = str(rng.choice(["none", "none", "low", "high", "both", "on-sample", "excludes-main-peak", "excludes-main-peak"]))
     lo = hi = None
     if rk == "excludes-main-peak":
